@@ -77,7 +77,8 @@ CLAIMS = {
                  "grammar or position in the select list) in order, each with its own direction (order_by_parse_correct); a key listed a second time, in whatever direction, never changes the comparison "
                  "(repeated_key_irrelevant). That the buffered rows equal the rows of the query without ORDER BY, and the "
                  "unselected-key clause, are decided by the correspondence (model vs binary) and the oracle "
-                 "(permutation of the unordered run; adjacent pairs ordered under an independent comparator), not by proof."),
+                 "(permutation of the unordered run as multisets, also with select lists that give different entries the same row text; adjacent pairs ordered under an independent comparator), not by proof. "
+                 "D86 fixed (on 29 February every ORDER BY over a date column panicked: the fallback date was built from today's date): a date-ordered query is rerun under four wall clocks fixed by an LD_PRELOAD shim and must give the same bytes."),
         "ref": "DESIGN.md §4 C05",
     },
     "C06": {
